@@ -40,6 +40,13 @@ def run(R):
         r3(R)
     if R.want("C12.R4"):
         r4(R, tus)
+    if R.want("C12.R5"):
+        # one 2D blob per connected component is the premise of "exactly one output peak per component": the dense labeller's
+        # neighbour table (every already-visited neighbour linked, unconditionally, in every border region).  Shared with C11.R1.
+        from engine import report
+        from rules import c11
+        tus11 = cfront.load(R.root, files=["connectedpixels.c", "sparse_image.c", "blobs.c"])
+        c11.r1(report.Alias(R, {"C11.R1": "C12.R5"}), tus11)
 
 
 def field_of(e, arr):
